@@ -737,6 +737,9 @@ class Peer:
                     await update_handler.handle_async(ctx, message)
                 elif route_refresh_handler.can_handle(message):
                     await route_refresh_handler.handle_async(ctx, message)
+                elif message.TYPE == Open.TYPE:
+                    # RFC 4271 8.2.2, RFC 6608: an OPEN is not acceptable once established
+                    raise Notify(5, 3, 'OPEN message received in the Established state')
 
                 # Send outbound messages using async helpers
                 await self._send_operational_messages()
